@@ -234,6 +234,50 @@ func runC10(c *Ctx) {
 		}
 	})
 
+	c.rule("C10.O3", "ProcessBlock: requests starting at this height are registered (addNewRequests) before the block is searched for spends (notifySpends), so a spend in a request's own start block is reported", func() {
+		fn := c.fn("(*neutrino.batchSpendReporter).ProcessBlock")
+		addN := callTo(rep("addNewRequests"))
+		spends := callTo(rep("notifySpends"))
+		// on the path where there are new requests
+		var lenCmps []ssa.Instruction
+		ir.Instrs(fn, func(in ssa.Instruction) {
+			b, ok := in.(*ssa.BinOp)
+			if !ok {
+				return
+			}
+			if call, ok := b.X.(*ssa.Call); ok && isBuiltin("len")(call) && call.Call.Args[0] == ssa.Value(fn.Params[2]) {
+				if k, isC := ir.ConstInt(b.Y); isC && k == 0 {
+					lenCmps = append(lenCmps, in)
+				}
+			}
+		})
+		g := cmpIs("len(newReqs) > 0", lenCmps, true)
+		cut := ir.Cut{}
+		for _, s := range g.sites {
+			cut[s.br.Other()] = true
+		}
+		var bad []string
+		ir.Walk(fn.Blocks[0], 0, cut, func(in ssa.Instruction) bool {
+			if addN(in) {
+				return false
+			}
+			if spends(in) {
+				bad = append(bad, c.at(in))
+			}
+			return true
+		})
+		n := len(find(fn, addN)) + len(find(fn, spends))
+		c.verdict(len(bad) == 0 && n >= 2 && len(g.sites) >= 1, c.nm(fn)+" | addNewRequests precedes notifySpends when there are new requests", c.P.Pos(fn.Pos()), "new requests are watched before the block is searched", "notifySpends at "+join(bad)+" runs before the requests starting at this height are registered: a spend in the start block is never reported")
+		// findInitialTransactions sees the same block and requests
+		fi := find(fn, callTo(rep("findInitialTransactions")))
+		okArgs := len(fi) == 1
+		for _, x := range fi {
+			a := argsOf(x)
+			okArgs = a[0] == ssa.Value(fn.Params[1]) && a[1] == ssa.Value(fn.Params[2])
+		}
+		c.verdict(okArgs, c.nm(fn)+" | findInitialTransactions(blk, newReqs, height)", c.P.Pos(fn.Pos()), "start block searched for the requested outputs", "the start block is no longer searched for the requested outputs")
+	})
+
 	c.rule("C10.L1", "UtxoScanner.pq and nextBatch are accessed only under s.mu (= s.cv.L); GetUtxoRequest.result only under r.mu", func() {
 		mu := c.field("neutrino", "UtxoScanner", "mu")
 		exempt := map[string]string{"neutrino.NewUtxoScanner": "constructor"}
